@@ -168,12 +168,23 @@ func init() {
 		sink := NewSink(a.out, "C14", "", a.seed)
 		sink.meta.Rule = "free-running goroutines (oracle only): kind 0 = 4..8 goroutines insert/delete disjoint keys of one skiplist with partial statistics merged after every operation; kind 1 = Nitro with 4..8 writers, one garbage list per snapshot collected by the writers' collection workers in parallel; at quiescence all statistics must equal the walk"
 		top := rand.New(rand.NewSource(a.seed))
+		var fixed *statIn
+		if a.replay != "" {
+			fixed = &statIn{}
+			if err := loadReplayCase(a.replay, fixed); err != nil {
+				return err
+			}
+			a.n = 1
+		}
 		for i := 0; i < a.n; i++ {
 			in := &statIn{Seed: top.Int63(), Kind: i % 2, Workers: 4 + top.Intn(5), MM: i%4 == 3}
 			if in.Kind == 0 {
 				in.N = 40000 + top.Intn(40000)
 			} else {
 				in.N = 4000 + top.Intn(4000)
+			}
+			if fixed != nil {
+				in = fixed
 			}
 			sink.Begin(in)
 			var bad string
